@@ -175,6 +175,48 @@ theorem sortNames_sorted : ∀ l, Sorted (sortNames l)
 
 theorem mem_sortNames {l : List Path} {x : Path} : x ∈ sortNames l ↔ x ∈ l := (sortNames_perm l).mem_iff
 
+theorem charToNat_inj (a b : Char) (h : a.toNat = b.toNat) : a = b := by
+  apply Char.ext
+  apply UInt32.toNat_inj.1
+  exact h
+
+theorem nameLe_antisymm : ∀ a b, nameLe a b = true → nameLe b a = true → a = b
+  | [], [], _, _ => rfl
+  | [], _ :: _, _, h => by simp [nameLe] at h
+  | _ :: _, [], h, _ => by simp [nameLe] at h
+  | a :: as, b :: bs, h1, h2 => by
+    simp only [nameLe, Bool.or_eq_true, decide_eq_true_eq, Bool.and_eq_true, beq_iff_eq] at h1 h2
+    have he : a.toNat = b.toNat := by omega
+    have hab : a = b := charToNat_inj a b he
+    subst hab
+    have h1' : nameLe as bs = true := by rcases h1 with h | ⟨_, h⟩; · omega
+                                         · exact h
+    have h2' : nameLe bs as = true := by rcases h2 with h | ⟨_, h⟩; · omega
+                                         · exact h
+    rw [nameLe_antisymm as bs h1' h2']
+
+/-- a sorted list is determined by its elements: EVERY sorting algorithm gives `sortNames` -/
+theorem sorted_perm_eq : ∀ {l1 l2 : List Path}, Sorted l1 → Sorted l2 → l1.Perm l2 → l1 = l2
+  | [], l2, _, _, h => by simpa using h.symm.eq_nil
+  | a :: t, [], _, _, h => by simpa using h.eq_nil
+  | a :: t, b :: u, h1, h2, h => by
+    have ha := List.pairwise_cons.1 h1
+    have hb := List.pairwise_cons.1 h2
+    have hab : a = b := by
+      have hbm : b ∈ a :: t := h.mem_iff.2 (by simp)
+      have ham : a ∈ b :: u := h.mem_iff.1 (by simp)
+      have h_ab : nameLe a b = true := by
+        rcases List.mem_cons.1 hbm with e | e
+        · rw [e]; exact nameLe_refl _
+        · exact ha.1 b e
+      have h_ba : nameLe b a = true := by
+        rcases List.mem_cons.1 ham with e | e
+        · rw [e]; exact nameLe_refl _
+        · exact hb.1 a e
+      exact nameLe_antisymm a b h_ab h_ba
+    subst hab
+    rw [sorted_perm_eq ha.2 hb.2 (List.Perm.cons_inv h)]
+
 /-! ### `find_path_by_files` -/
 
 theorem findPathByFiles_some {fs : FS} {sp : Path} {files : List Path} {d : Path}
